@@ -6365,10 +6365,17 @@ static size_t ZSTD_CCtx_init_compressStream2(ZSTD_CCtx* cctx,
         }
         /* mt compression */
         DEBUGLOG(4, "call ZSTDMT_initCStream_internal as nbWorkers=%u", params.nbWorkers);
-        FORWARD_IF_ERROR( ZSTDMT_initCStream_internal(
+        {   size_t const initError = ZSTDMT_initCStream_internal(
                     cctx->mtctx,
                     prefixDict.dict, prefixDict.dictSize, prefixDict.dictContentType,
-                    cctx->cdict, params, cctx->pledgedSrcSizePlusOne-1) , "");
+                    cctx->cdict, params, cctx->pledgedSrcSizePlusOne-1);
+            if (ZSTD_isError(initError)) {
+                /* A failed resize leaves the multi-threaded context without some of its pools,
+                 * and it would refuse every later frame : drop it, the next frame creates a new one. */
+                ZSTDMT_freeCCtx(cctx->mtctx);
+                cctx->mtctx = NULL;
+                return initError;
+        }   }
         cctx->dictID = cctx->cdict ? cctx->cdict->dictID : 0;
         cctx->dictContentSize = cctx->cdict ? cctx->cdict->dictContentSize : prefixDict.dictSize;
         cctx->consumedSrcSize = 0;
